@@ -373,3 +373,53 @@ class CkkGenerator(FunctionContract):
 ckk_generator = CkkGenerator()
 C11_CONTRACTS = [("contracts.exact", n) for n in ("cg_anytime_difference", "cg_anytime_minmax", "cg_anytime_maxmin", "cbldm_anytime", "ckk_generator")]
 EXACT_CONTRACTS = [("contracts.exact", n) for n in ("cg_difference", "cg_minmax", "cg_maxmin", "ckk", "ckk_contents", "dp_difference", "dp_minmax", "dp_maxmin")]
+
+
+# ------------------------------------------------------------------------------------------------ heuristics at bounded shape (C01, C08)
+class HeuristicPartition(ExactPartition):
+    """kk / multifit: a partition of the items (kk: exactly numbins bins and gap <= the largest item; multifit: at most numbins bins)"""
+    takes = ()
+    min_obligations = 3
+
+    def post(self, c, kind, res):
+        if kind != "return":
+            return []
+        n, k = self._shape
+        xs, vs = self._xs, self._vs
+        if self.name == "kk":
+            out = partition_post(c.it, res, xs, vs, k, None)
+            sums = [term_of(s) for s in c_iter(res[0])]
+            if len(sums) == k and n >= 1:
+                biggest = zmax([z3.ToReal(v) for v in vs])
+                out.append(("C08:gap<=largest-item", zmax(sums) - zmin(sums) <= biggest))
+            return out
+        # multifit may return fewer bins, never more
+        if not (isinstance(res, tuple) and len(res) == 2 and isinstance(res[1], PList)):
+            return [("C01:returns-bins", z3.BoolVal(False))]
+        nb = len(c_iter(res[0]))
+        out = [o for o in partition_post(c.it, res, xs, vs, nb, None) if "number-of-bins" not in o[0]]
+        out.append(("C01:multifit-never-more-than-numbins-bins", z3.BoolVal(1 <= nb <= k)))
+        return out
+
+
+kk_part = HeuristicPartition("kk", "prtpy/partitioning/karmarkar_karp_sy.py::kk", None, shapes_quick=[(n, k) for n in (1, 2, 3) for k in (1, 2, 3)],
+                             shapes_thorough=[(n, k) for n in (1, 2, 3, 4) for k in (1, 2, 3)])
+multifit_part = HeuristicPartition("multifit", "prtpy/partitioning/multifit.py::multifit", None, extra={"iterations": 2},
+                                   shapes_quick=[(n, k) for n in (1, 2, 3) for k in (1, 2)], shapes_thorough=[(n, k) for n in (1, 2, 3) for k in (1, 2, 3)])
+HEUR_CONTRACTS = [("contracts.exact", "kk_part"), ("contracts.exact", "multifit_part")]
+
+
+# ------------------------------------------------------------------------------------------------ complete greedy: all 16 switch combinations (thorough tier)
+def _cg_switches():
+    out = {}
+    for bits in itertools.product((False, True), repeat=4):
+        for o in ("difference", "min-max", "max-min"):
+            extra = dict(zip(("use_lower_bound", "use_fast_lower_bound", "use_heuristic_3", "use_set_of_seen_states"), bits))
+            name = "cg16_" + o.replace("-", "") + "_" + "".join("1" if b else "0" for b in bits)
+            out[name] = ExactPartition("cg", CG, o, extra=extra, shapes_quick=[(3, 2)], shapes_thorough=[(n, k) for n in (1, 2, 3, 4) for k in (1, 2, 3) if not (n == 4 and k == 3)])
+    return out
+
+
+CG16 = _cg_switches()
+globals().update(CG16)
+CG16_CONTRACTS = [("contracts.exact", n) for n in CG16]
